@@ -1,12 +1,17 @@
+\* As in the code (Paired = FALSE, Fixed = FALSE) TLC reports Refines violated: that counterexample is the candidate defect
+\* that checks/C31.py confirms on the real Manager.  Paired = TRUE or Fixed = TRUE are the configurations that must pass.
 SPECIFICATION Spec
 CONSTANTS
   NS = {"n1", "n2"}
   NV = 2
   Scenarios = {1}
   CredOf <- MCCredOf
+  JoinKey <- MCJoinKey
+  SplitUser <- MCSplitUser
+  SplitPw <- MCSplitPw
   InitActive <- MCInit
   Paired = FALSE
   Fixed = FALSE
-INVARIANTS TypeOK OneGeneration Refines OutcomeAllowed UsersRefine
+INVARIANTS TypeOK OneGeneration Refines OutcomeAllowed UsersRefine CodeUsersRefine
 PROPERTIES C31Step StaysDeleted OnlyOwnTriples
 CHECK_DEADLOCK FALSE
